@@ -44,7 +44,7 @@ CHECKS = {
             "trusted: vlib.outparse (validated at setup on malformed and well-formed files)", "3/C06"),
     "C07": ("exploration", "offline provenance oracle over the output with the sender's ground truth: every exported packet is attributed to its record / datagram by stream offset and its addresses, orientation and microsecond timestamp are checked against the input packets that carried it",
             "Random MAC/IP/port values including degenerate ones, all segmentation classes plus duplicated/reordered deliveries, six timestamp styles stressing float rounding; "
-            "15 000+ exported segments attributed per quick run.",
+            "15 000+ exported segments attributed per quick run; multi-connection scenes whose endpoints share hosts, ports or addresses (also the same two addresses under other MAC addresses per connection).",
             TRUST, "3/C07"),
     "C08": ("fault_enumeration", "every prefix of a capture is run through the real program and compared with the export of the full capture (prefix + monotonicity per conversation and direction), on generated scenes and on the repository's real OpenSSL captures",
             "All cut positions 0..N of each capture are enumerated (sampled to 120 positions only for captures longer than 120 packets in the quick tier).",
@@ -53,17 +53,17 @@ CHECKS = {
             "Each scene's baseline delivery is compared byte for byte with every alternative delivery (generated scenes and the repository's real captures with their real key logs); permutations are exhaustive up to 5 lines.",
             TRUST, "3/C09"),
     "C10": ("exploration", "output oracle over option configurations: presence, exported server port and client port of every connection of a scene are checked against the documented -p/-m rules, together with exactness of the exported data",
-            "Random scenes of 2-5 TLS/QUIC connections to ten different server ports under random -p lists and every -m form (absent, bare, pairs, pairs with commas).",
+            "Random scenes of 2-5 TLS/QUIC connections to ten different server ports under random -p lists and every -m form (absent, bare, pairs, pairs with commas); the same after an earlier run() of the same process with another -p list and mapping (the selection is that of the command, not of the process).",
             TRUST, "3/C10"),
     "C11": ("exploration", "runtime monitor comparing the real checksum routines with an independent RFC 1071 verifier on solved-for boundary packets + metamorphic end-to-end oracle (-c with corrupted packets == no -c with them removed)",
             "The real calculate_checksum_tcp/udp run on real Packet objects whose payloads are solved so that the unfolded sum hits every carry/fold boundary and "
-            "the 0x0000/0xFFFF checksum values; the end-to-end relation of the property is checked byte for byte on TLS and QUIC scenes with arbitrary corrupted subsets.",
+            "the 0x0000/0xFFFF checksum values, a quarter of them inside VLAN tags, behind IPv4 options or IPv6 extension headers; the end-to-end relation of the property is checked byte for byte on TLS and QUIC scenes with arbitrary corrupted subsets.",
             TRUST, "3/C11"),
     "C15": ("exploration", "runtime monitors on key installation (Decryptor.__init__, QuicSession.set_initial_decryptor/set_tls_decryptors/check_key_epoch) inside real end-to-end runs, compared with hashlib/hmac reference key schedules",
             "Keys are observed where they are installed for a real connection, so the wiring session -> key_derivator -> decryptor is part of what is checked; every "
-            "(suite, version) of the frozen matrix with random secrets, and QUIC connections with Retry, 0-RTT and several key-update generations.",
+            "(suite, version) of the frozen matrix with random secrets, QUIC connections with Retry, 0-RTT and several key-update generations, and histories of 2-3 connections in one process (a session and its resumptions, unrelated connections with equal or different suites; one capture or one per run() call) in which every connection must find its own key set installed.",
             "trusted: vlib.refkdf, checked against RFC 5869/9001 vectors at setup", "3/C15"),
-    "C12": ("exploration", "metamorphic runtime oracle: byte equality of the output across 23-40 capture containers of the same packet list (pcapng LE/BE x if_tsresol x if_tsoffset x interspersed unrelated blocks incl. an unused second interface x secrets in a DSB; legacy pcap LE/BE, us and ns), generated scenes and the repository's real captures",
+    "C12": ("exploration", "metamorphic runtime oracle: byte equality of the output across 31-47 capture containers of the same packet list (pcapng LE/BE x if_tsresol x if_tsoffset x interspersed unrelated blocks incl. secrets blocks of other protocols x captures of 2-3 interfaces with their own clocks, an idle non-Ethernet first interface, files of 2-3 sections x secrets in a DSB; legacy pcap LE/BE, us and ns), generated scenes and the repository's real captures",
             "Timestamps are drawn from the grid every container of the group can represent, so equality is demanded only where the inputs are equal.",
             TRUST, "3/C12"),
     "C13": ("exploration", "differential runtime oracle: each connection exported with and without -a; subsequence test on data packets, record-by-record parse of the -a stream against the sender's record list, packet-boundary test for the hello records; QUIC per-datagram comparison",
